@@ -80,14 +80,14 @@ enum { R_REMOTE = 0, R_SOURCE, R_TAP, R_PSEUDO };
 
 enum { CL_INFLIGHT, CL_FLUSH_STALL, CL_FLOWDEF_MID, CL_RELEASE_RACE, CL_TWO_PRODUCERS, CL_WLIN, CL_WSINK, CL_WSRC,
        CL_STALLED, CL_SRC_BLOCKED, CL_LONGQ, CL_PREEMPTED, CL_FROZEN_CTRL, CL_EVENTS_FWD, CL_PSEUDO_OUT, CL_DELIVERED8,
-       CL_PROBE_FREEZE, CL_MUTEX, CL_REATTACH, CL_FLUSH, CL_CHAIN2, CL_RELEASE_SRC_FIRST, CL_MAXLEN, CL_REAL_THREAD };
+       CL_PROBE_FREEZE, CL_MUTEX, CL_REATTACH, CL_FLUSH, CL_CHAIN2, CL_RELEASE_SRC_FIRST, CL_MAXLEN, CL_REAL_THREAD, CL_APP_FREEZE, CL_REATTACH_OTHER };
 static const char *const class_names[] = {
     "inflight_gt_queue_length", "flush_during_stall", "flow_def_change_in_mid_stream", "release_with_undelivered_buffers",
     "two_producers", "topology_wlin", "topology_wsink", "topology_wsrc",
     "qsink_stalled_event", "source_pump_blocked", "queue_length_gt_4", "preempted_inside_a_call", "control_under_freeze",
     "events_forwarded", "pseudo_output_set_and_cleared", "delivered_ge_8",
     "probe_frozen_during_alloc", "xfer_mutex", "upump_mgr_reattached", "flush", "remote_chain_of_2", "source_released_before_sinks",
-    "set_max_length", "real_loop_thread_pthread_transfer", NULL };
+    "set_max_length", "real_loop_thread_pthread_transfer", "forwarded_control_inside_application_freeze", "queue_source_moved_to_another_loop", NULL };
 
 struct ctx;
 
@@ -159,6 +159,7 @@ struct ctx {
     unsigned ev_thrown_local[MAXMOCK], ev_thrown_u64[MAXMOCK], ev_recv_local[MAXMOCK], ev_recv_u64[MAXMOCK];
     unsigned inner_ctrl;
     int worker_attaches;
+    int moves;                  /* times the queue source was given another event loop */
     /* mock source */
     int src_total, src_sent, src_change_at;
     bool src_ended;
@@ -1021,6 +1022,34 @@ static void op_attach(struct ctx *c, int k)
     end_op(c, "after attach_upump_mgr");
 }
 
+/* the consumer side moves to another event loop: upipe_attach_upump_mgr on the queue source, answered with a NEW manager. Every
+ * watcher of the queue source -- data and out-of-band alike -- must live in the new loop afterwards: one left behind in the old
+ * loop would deliver end-of-source (and run the destruction) in a loop, that is a thread, the pipe no longer belongs to */
+static void op_move_qsrc(struct ctx *c)
+{
+    if (c->qsrc == NULL || c->bth != NULL || c->moves >= 2) return;
+    struct upump_mgr *old = c->loop[SB];
+    struct upump_mgr *fresh = fake_upump_mgr_alloc(c->pfx.cfg.pool_depth, c->pfx.cfg.pool_depth);
+    if (fresh == NULL) { INTERNAL("fake_upump_mgr_alloc"); return; }
+    c->moves++;
+    c->loop[SB] = fresh;
+    c->forced = SB;
+    ARM(c);
+    int err = upipe_attach_upump_mgr(c->qsrc);
+    c->forced = SA;
+    R("  queue source: attach_upump_mgr answered with a new event loop -> %d\n", err);
+    c->hash = vp_hash_mix(c->hash, 0x98);
+    CLS(CL_REATTACH_OTHER);
+    if (!c->ret && fake_upump_count(old) != 0)
+        FAIL("thread/watcher-left-in-old-loop", "after the queue source was given another event loop, %d of its watchers are still allocated in the old one: what they deliver (end of source, requests, the destruction of the pipe) would run in the wrong loop", fake_upump_count(old));
+    if (!c->ret) {
+        upump_mgr_vacuum(old);
+        if (!urefcount_single(old->refcount)) FAIL("audit/loop", "the event loop the queue source has left is still referenced");
+        else upump_mgr_release(old);
+    }
+    end_op(c, "after the queue source moved to another event loop");
+}
+
 static void op_maxlen(struct ctx *c, int k, unsigned n)
 {
     struct upipe *pipe = target_pipe(c, k % c->nsinks);
@@ -1033,14 +1062,25 @@ static void op_maxlen(struct ctx *c, int k, unsigned n)
 }
 
 /* a control command the worker does not know goes to the first remote pipe under freeze / thaw */
-static void op_ctrl_inner(struct ctx *c)
+static void op_ctrl_inner(struct ctx *c, bool app_freeze)
 {
     if (c->worker == NULL) return;
     unsigned before = c->inner_ctrl;
+    /* the application may have frozen the remote loop itself (upipe_bin_freeze) to work on the inner pipes: a control command the
+     * worker forwards meanwhile must leave that freeze in force */
+    bool frozen_by_app = false;
+    if (app_freeze && c->with_mutex && !c->mutex_locked && ubase_check(upipe_bin_freeze(c->worker))) {
+        frozen_by_app = c->mutex_locked;
+        R("  worker: frozen by the application\n");
+    }
     ARM(c);
     int err = upipe_set_option(c->worker, "k", "v");
     R("  worker: set_option (forwarded to the remote pipe under freeze) -> %d\n", err);
-    c->hash = vp_hash_mix(c->hash, 0xb0);
+    c->hash = vp_hash_mix(c->hash, 0xb0 + frozen_by_app);
+    if (frozen_by_app) {
+        if (!c->mutex_locked) FAIL("freeze/thawed-by-forwarded-command", "the application froze the remote loop; a control command forwarded by the worker to its inner pipe left it thawed: the application goes on using the inner pipes unsynchronised");
+        else { upipe_bin_thaw(c->worker); CLS(CL_APP_FREEZE); }
+    }
     if (c->mutex_locked) FAIL("freeze/left-frozen", "the remote loop is still frozen after the control command returned");
     if (c->with_mutex) {
         if (c->inner_ctrl == before + 1) CLS(CL_FROZEN_CTRL);
@@ -1264,11 +1304,11 @@ static int run(const uint8_t *tape, size_t len, struct vp_report *rep, unsigned 
         case 4: case 5: op_step(c, SA, a); break;
         case 6: case 7: op_step(c, SB, a); break;
         case 8: if (c->topo != T_WSRC) op_set_flow_def(c, a & 1); break;
-        case 9: if (c->topo <= T_Q2) op_flush(c, a & 1); else op_ctrl_inner(c); break;
+        case 9: if (c->topo <= T_Q2) op_flush(c, a & 1); else op_ctrl_inner(c, (a & 1) != 0); break;
         case 10: if (c->topo <= T_Q2) op_maxlen(c, a & 1, a >> 1); else op_step(c, SB, a); break;
         case 11: op_release(c, a); break;
         case 12: if (c->topo <= T_Q2) op_pseudo(c, a & 1); else op_step(c, SA, a); break;
-        case 13: op_attach(c, a & 1); break;
+        case 13: if (c->topo <= T_Q2 && (a & 2)) op_move_qsrc(c); else op_attach(c, a & 1); break;
         case 14: {
             uint8_t n = tp_u8(&c->t);
             c->countdown = n < 192 ? 1 + n % 48 : 1 + (n - 192) * 9;
